@@ -48,6 +48,11 @@ func c12Same(got string, want []byte) bool {
 func HC12HTML() {
 	k := 1 + vChoice("labelLen", 8)
 	label, want := c12Label(k)
+	// labels that start with "utf-16" are the property's "utf-16 labels" (they map to utf-8, HC12UTF16);
+	// the lower-casing claim is made for every other label
+	if k >= 6 {
+		vAssume(!(want[0] == 'u' && want[1] == 't' && want[2] == 'f' && want[3] == '-' && want[4] == '1' && want[5] == '6'))
+	}
 	cv := vChoice("case", 3)
 	var in []byte
 	bom := false
